@@ -20,7 +20,7 @@ use std::collections::{BTreeMap, BTreeSet, HashMap};
 use vcore::{Violation, util};
 
 use crate::cells::{
-    Body, BodyKind, Prepared, Principal, Target, TargetKind, Variant, access, bodies, effect_at, has_params, nowhere, principals,
+    Body, BodyKind, Prepared, Principal, Target, in_focus, TargetKind, Variant, access, bodies, effect_at, has_params, nowhere, principals,
     sha3_hex, targets,
 };
 use crate::model::{Access, DBS, Event, Model, Root, Status, token};
@@ -437,7 +437,7 @@ pub async fn run_state(tables: &Tables, root: Root, history: &[Event], select: &
     cx.lite = select.lite;
     let ts = targets();
 
-    if select.wants("reject") {
+    if select.wants("reject") || select.wants("restart-lookahead") {
         match build_world(root, history).await {
             Ok((mut w, m, n)) => {
                 debug_assert_eq!(m, model);
@@ -446,8 +446,26 @@ pub async fn run_state(tables: &Tables, root: Root, history: &[Event], select: &
                 if let Err(e) = probe_canon(&mut w, &model).await {
                     cx.rep.machinery.push(e);
                 }
-                phase_reject(&mut cx, &mut w, &ps, &ts, &bs).await;
-                w.shutdown().await;
+                if select.wants("reject") {
+                    phase_reject(&mut cx, &mut w, &ps, &ts, &bs).await;
+                }
+                // One-step lookahead: the rejected cells leave the world
+                // untouched, so it is restarted here and every credential is
+                // tried once more on every database. What was persisted about
+                // the bindings (a revocation above all) must give the same
+                // decisions as the live instance gave.
+                if select.wants("restart-lookahead") {
+                    match w.restart().await {
+                        Ok(mut w2) => {
+                            cx.rep.add("events_executed", 1);
+                            phase_restart_lookahead(&mut cx, &mut w2, &ps, &ts, &bs).await;
+                            w2.shutdown().await;
+                        }
+                        Err(e) => cx.rep.machinery.push(format!("restart lookahead: {e}")),
+                    }
+                } else {
+                    w.shutdown().await;
+                }
             }
             Err(e) => cx.rep.machinery.push(e),
         }
@@ -596,6 +614,9 @@ async fn phase_reject(cx: &mut Ctx<'_>, w: &mut World, ps: &[Principal], ts: &[T
         if rejected_somewhere {
             for enc in [Enc::Cbor, Enc::Json] {
                 for (bi, b) in bs.iter().enumerate() {
+                    if p.focused && !in_focus(b) {
+                        continue;
+                    }
                     let req = cx.prepared.request(bi, &nowhere.path, p.auth.clone(), enc, victim);
                     let (resp, trace) = w.send(&req).await;
                     cx.rep.add("evaluations", 1);
@@ -654,6 +675,9 @@ async fn phase_reject(cx: &mut Ctx<'_>, w: &mut World, ps: &[Principal], ts: &[T
             for enc in [Enc::Cbor, Enc::Json] {
                 for (bi, b) in bs.iter().enumerate() {
                     if cx.lite && acc == Access::PathLevel && b.variant() == Some(Variant::BadParams) {
+                        continue;
+                    }
+                    if p.focused && !in_focus(b) {
                         continue;
                     }
                     let req = cx.prepared.request(bi, &t.path, p.auth.clone(), enc, victim);
@@ -765,6 +789,68 @@ async fn phase_reject(cx: &mut Ctx<'_>, w: &mut World, ps: &[Principal], ts: &[T
                         );
                     }
                 }
+            }
+        }
+    }
+}
+
+/// After a restart of the untouched reject world: every credential once more
+/// on `POST /`, `POST /<A>`, `POST /<B>` (CBOR, `info`). The model state is
+/// the same control state with cold databases.
+async fn phase_restart_lookahead(cx: &mut Ctx<'_>, w: &mut World, ps: &[Principal], ts: &[Target], bs: &[Body]) {
+    let m = cx.model;
+    let phase = "restart-lookahead";
+    let Some(bi) = bs.iter().position(|b| b.label == "info" && b.variant() == Some(Variant::Minimal)) else { return };
+    let b = &bs[bi];
+    let nowhere = nowhere();
+    let enc = Enc::Cbor;
+    for p in ps {
+        if access(m, p, &nowhere) != Access::Reject {
+            continue;
+        }
+        let holder = m.holder_of(p.token.as_deref());
+        let victim = victim_of(m, p);
+        let rreq = cx.prepared.request(bi, &nowhere.path, p.auth.clone(), enc, victim);
+        let (rref, _) = w.send(&rreq).await;
+        cx.rep.add("evaluations", 1);
+        for t in ts.iter().filter(|t| matches!(t.kind, TargetKind::Root | TargetKind::Db(_))) {
+            let acc = access(m, p, t);
+            let req = cx.prepared.request(bi, &t.path, p.auth.clone(), enc, victim);
+            let (resp, trace) = w.send(&req).await;
+            cx.rep.add("evaluations", 1);
+            cx.rep.add("cells_after_restart", 1);
+            let tsig = t.sig_class(m, holder);
+            cx.distinct("after-restart", p, &t.class(m, holder), Some(enc), Some(b));
+            match acc {
+                Access::Reject => {
+                    if resp != rref || (resp.status != 401 && resp.status != 403) {
+                        cx.violate(
+                            format!("C14|reject-differs-after-restart|{}|{tsig}", p.kind),
+                            format!(
+                                "after a restart the answer ({}) to a credential the rules reject differs from the answer for a nonexistent database ({})",
+                                resp.status, rref.status
+                            ),
+                            phase,
+                            p,
+                            t,
+                            Some(enc),
+                            Some(b),
+                            &req,
+                            &resp,
+                            json!({"history_suffix": "restart", "reference_response": rref.to_json(), "store": calls_json(&trace)}),
+                        );
+                    }
+                }
+                Access::Scoped(_) => {
+                    if resp.status == 401 || resp.status == 403 {
+                        cx.rep.machinery.push(format!(
+                            "after a restart the bound key of {} is rejected (state {})",
+                            t.path,
+                            m.canon()
+                        ));
+                    }
+                }
+                _ => {}
             }
         }
     }
@@ -902,18 +988,16 @@ async fn phase_tenant(
                     cx.rep.ok_methods.insert(n.to_string());
                 }
                 if resp.status == 401 || resp.status == 403 {
-                    cx.violate(
-                        format!("C14|owner-rejected|{}", t.sig_class(m, Some(d))),
-                        "the holder of the key bound to this database is rejected on it".into(),
-                        phase,
-                        p,
-                        t,
-                        Some(enc),
-                        Some(b),
-                        &req,
-                        &resp,
-                        Value::Null,
-                    );
+                    // not a statement of C14 (availability), but the tenant
+                    // cells would be vacuous: report as a harness problem
+                    cx.rep.machinery.push(format!(
+                        "the holder of the key bound to {} is rejected on it ({} {}, state {})",
+                        DBS[d],
+                        t.path,
+                        b.label,
+                        m.canon()
+                    ));
+                    return;
                 }
                 if let Some(what) = leaks(&resp, &secrets) {
                     cx.violate(
